@@ -168,6 +168,7 @@ Json generate(const std::string& tier, uint64_t seed, uint64_t index) {
   sc.set("easy_party", !sc["c_party"].as_bool() && rng.chance(0.15));
   // two more consumer parties from the C side of the library: its default callback table, and NLW2_ReadSolution_C on a solver
   // object with a history (it has read another solution, with suffixes of its own, before)
+  if (sc["easy_party"].as_bool() && rng.chance(0.4)) sc.set("easy_after_other_model", true);
   { int q = (int)rng.below(100); if (!sc["c_party"].as_bool() && !sc["easy_party"].as_bool()) { if (q < 8) sc.set("c_default_party", true); else if (q < 18) sc.set("easy_c_party", true); } }   // the library's own handler (NLSolver::ReadSolution for an NLModel of the declared size)      // the consumer is a C callback table behind the library's C wrapper (api/c)
   return sc;
 }
@@ -205,6 +206,7 @@ SolReadConfig config_of(const Json& sc) {
   c.options_rv = (int)sc["options_rv"].as_int(0);
   c.c_party = sc["c_party"].as_bool();
   c.easy_party = sc["easy_party"].as_bool();
+  if (sc["easy_after_other_model"].as_bool()) { c.easy_history = true; c.easy_types.assign((size_t)std::max(0, c.nvars), 0); }   // all continuous: identity order after a permuted model
   c.c_default_party = sc["c_default_party"].as_bool();
   c.easy_c_party = sc["easy_c_party"].as_bool();
   return c;
